@@ -8,17 +8,17 @@ import (
 	"github.com/brimdata/super/zson"
 )
 
-// vEntrySink is the model zio.WriteCloser behind a seekindex.Writer: it
+// v14EntrySink is the model zio.WriteCloser behind a seekindex.Writer: it
 // decodes every value it is handed back into an Entry (under gosym the
 // reflection-driven zson marshal/unmarshal pair is an identity intrinsic,
 // natively it is the real code).
-type vEntrySink struct {
+type v14EntrySink struct {
 	entries []Entry
 	bad     bool
 	closed  bool
 }
 
-func (s *vEntrySink) Write(val zed.Value) error {
+func (s *v14EntrySink) Write(val zed.Value) error {
 	var e Entry
 	if err := zson.UnmarshalZNG(val, &e); err != nil {
 		s.bad = true
@@ -28,19 +28,19 @@ func (s *vEntrySink) Write(val zed.Value) error {
 	return nil
 }
 
-func (s *vEntrySink) Close() error {
+func (s *v14EntrySink) Close() error {
 	s.closed = true
 	return nil
 }
 
-func vKeyEq(v zed.Value, null bool, k int64) bool {
+func v14KeyEq(v zed.Value, null bool, k int64) bool {
 	if null {
 		return v.IsNull()
 	}
 	return !v.IsNull() && v.Type().ID() == zed.IDInt64 && v.Int() == k
 }
 
-func vKeyVal(null bool, k int64) zed.Value {
+func v14KeyVal(null bool, k int64) zed.Value {
 	if null {
 		return zed.NullInt64
 	}
@@ -51,7 +51,7 @@ func vKeyVal(null bool, k int64) zed.Value {
 // verif:bounds 1..3 writes; valoff, offset any uint64 with valoff_i >= valoff_{i-1}, offset_i >= offset_{i-1}; min/max any int64 or null(int64)
 // verif:outside the zson reflection marshaler (identity intrinsic under gosym, real code in the native replay); failing underlying writer
 func VerifH_C14_O1_seekindex_writer_tiles() {
-	sink := &vEntrySink{}
+	sink := &v14EntrySink{}
 	w := NewWriter(sink)
 	n := verif.Choose("n", 3) + 1
 	var prevVal, prevOff uint64
@@ -68,7 +68,7 @@ func VerifH_C14_O1_seekindex_writer_tiles() {
 			valoff: verif.Uint64("valoff"), offset: verif.Uint64("offset"),
 		}
 		verif.Assume(c.valoff >= prevVal && c.offset >= prevOff)
-		err := w.Write(vKeyVal(c.minNull, c.min), vKeyVal(c.maxNull, c.max), c.valoff, c.offset)
+		err := w.Write(v14KeyVal(c.minNull, c.min), v14KeyVal(c.maxNull, c.max), c.valoff, c.offset)
 		verif.Assert(err == nil, "write-no-error")
 		prevVal, prevOff = c.valoff, c.offset
 		calls = append(calls, c)
@@ -85,8 +85,8 @@ func VerifH_C14_O1_seekindex_writer_tiles() {
 		verif.Assert(e.Offset == offEnd, "offset-contiguous")
 		verif.Assert(e.ValOff+e.ValCnt == c.valoff, "valcnt-ends-at-valoff")
 		verif.Assert(e.Offset+e.Length == c.offset, "length-ends-at-offset")
-		verif.Assert(vKeyEq(e.Min, c.minNull, c.min), "min-passed-through")
-		verif.Assert(vKeyEq(e.Max, c.maxNull, c.max), "max-passed-through")
+		verif.Assert(v14KeyEq(e.Min, c.minNull, c.min), "min-passed-through")
+		verif.Assert(v14KeyEq(e.Max, c.maxNull, c.max), "max-passed-through")
 		r := e.Range()
 		verif.Assert(uint64(r.Offset) == e.Offset && uint64(r.Length) == e.Length, "range-of-entry")
 		valEnd, offEnd = c.valoff, c.offset
@@ -96,46 +96,68 @@ func VerifH_C14_O1_seekindex_writer_tiles() {
 	verif.Reach("end")
 }
 
-// verif:desc C14-O2 seekindex.Ranges.Append over 1..4 entries in increasing, non-overlapping offset order (adjacent or with gaps, as a pruned seek index delivers them): a byte offset x lies in some resulting range iff it lies in some appended entry; resulting ranges are non-empty-ordered and separated (no range touches or overlaps the next).
-// verif:bounds 1..4 entries; Offset, Length any uint64 < 2^40 with Offset_i >= Offset_{i-1}+Length_{i-1}; probe offset x any int64
-// verif:outside offsets beyond 2^40 (int64 conversion overflow), entries out of order
-func VerifH_C14_O2_ranges_append_union() {
-	n := verif.Choose("n", 4) + 1
+// verif:desc C14-O2 inductive step of seekindex.Ranges.Append: from any Ranges of 0..2 ranges whose last range ends at or before the next entry (entries arrive in increasing, non-overlapping offset order, as a pruned seek index delivers them), Append(e) leaves earlier ranges untouched and either extends the last range by exactly e.Length (e adjacent to it) or adds the range [e.Offset, e.Offset+e.Length) (gap); hence a probe offset x lies in the new ranges iff it lay in the old ones or lies in e, the new last range ends where e ends (the invariant for the next step), and with 0 ranges (constructor case) the result is exactly e's range.
+// verif:bounds 0..2 existing ranges, Offset any 32-bit value, Length 0..65535, separated by gaps >= 1; e.Offset = end of last range + gap with gap either 0 (adjacent) or 1..65536, e.Length 0..65535; probe x any int64
+// verif:outside offsets near 2^63 (int64 conversion of the uint64 entry fields); entries out of order or overlapping
+func VerifH_C14_O2_ranges_append_step() {
+	n := verif.Choose("nranges", 3)
 	var ranges Ranges
 	x := verif.Int64("x")
-	inEntry := false
-	var end uint64
-	gaps := 0
+	var end int64
+	inOld := false
 	for i := 0; i < n; i++ {
-		e := Entry{Offset: verif.Uint64("offset"), Length: verif.Uint64("length")}
-		verif.Assume(e.Offset < 1<<40 && e.Length < 1<<40 && e.Offset >= end)
-		if i > 0 && e.Offset > end {
-			gaps++
-		}
-		end = e.Offset + e.Length
-		if x >= int64(e.Offset) && x < int64(e.Offset+e.Length) {
-			inEntry = true
-		}
-		ranges.Append(e)
-	}
-	inRange := false
-	for i, r := range ranges {
-		if x >= r.Offset && x < r.Offset+r.Length {
-			inRange = true
-		}
+		// each range has its own symbolic start (keeps the sums the solver
+		// must compare two additions deep)
+		r := Range{Offset: int64(verif.Uint32("r.offset")), Length: int64(verif.Uint16("r.length"))}
 		if i > 0 {
-			p := ranges[i-1]
-			verif.Assert(p.Offset+p.Length < r.Offset, "ranges-separated")
+			verif.Assume(r.Offset > end) // ranges already present are separated
+		}
+		end = r.Offset + r.Length
+		was := inOld
+		inOld = verif.MergeBool(func() bool { return was || (x >= r.Offset && x < r.Offset+r.Length) })
+		ranges = append(ranges, r)
+	}
+	old := append(Ranges(nil), ranges...)
+	e := Entry{Offset: uint64(end), Length: uint64(verif.Uint16("e.length"))}
+	if n == 0 || verif.Choose("gap", 2) == 1 {
+		e.Offset += uint64(verif.Uint16("e.gap"))
+		if n > 0 {
+			e.Offset++
 		}
 	}
-	verif.Assert(inRange == inEntry, "union-preserved")
-	verif.Assert(len(ranges) == gaps+1, "one-range-per-run")
-	verif.Observe("nranges", len(ranges))
-	if len(ranges) > 1 {
-		verif.Reach("gap")
-	}
-	if len(ranges) < n {
+	inE := verif.MergeBool(func() bool { return x >= int64(e.Offset) && x < int64(e.Offset+e.Length) })
+
+	ranges.Append(e)
+
+	adjacent := n > 0 && e.Offset == uint64(end)
+	if adjacent {
+		verif.Assert(len(ranges) == n, "adjacent-entry-coalesced")
 		verif.Reach("coalesced")
+	} else {
+		verif.Assert(len(ranges) == n+1, "gap-starts-new-range")
+		verif.Reach("new-range")
 	}
+	if len(ranges) == 0 {
+		return
+	}
+	for i := 0; i < len(ranges)-1 && i < len(old); i++ {
+		if i < n-1 || !adjacent {
+			verif.Assert(ranges[i] == old[i], "earlier-ranges-untouched")
+		}
+	}
+	last := ranges[len(ranges)-1]
+	verif.Assert(uint64(last.Offset+last.Length) == e.Offset+e.Length, "last-range-ends-with-entry")
+	if adjacent {
+		verif.Assert(last.Offset == old[n-1].Offset, "coalesced-keeps-start")
+	} else {
+		verif.Assert(uint64(last.Offset) == e.Offset, "new-range-starts-at-entry")
+	}
+	inNew := false
+	for _, r := range ranges {
+		was := inNew
+		inNew = verif.MergeBool(func() bool { return was || (x >= r.Offset && x < r.Offset+r.Length) })
+	}
+	verif.Assert(inNew == (inOld || inE), "union-preserved")
+	verif.Observe("nranges", len(ranges))
 	verif.Reach("end")
 }
